@@ -190,13 +190,6 @@ func flight4Parse(
 		cfg.WriteKeyLog(keyLogLabel, clientRandom[:], state.MasterSecret)
 	}
 
-	if len(state.SessionID) > 0 {
-		cfg.Log.Tracef("[handshake] save new session: %x", state.SessionID)
-		if err := cfg.SetSession(state.SessionID, state.SessionID, state.MasterSecret); err != nil {
-			return 0, &alert.Alert{Level: alert.Fatal, Description: alert.InternalError}, err
-		}
-	}
-
 	// Now, encrypted packets can be handled
 	if err := conn.HandleQueuedPackets(ctx); err != nil {
 		return 0, &alert.Alert{Level: alert.Fatal, Description: alert.InternalError}, err
@@ -236,11 +229,28 @@ func flight4Parse(
 		return 0, &alert.Alert{Level: alert.Fatal, Description: alert.HandshakeFailure}, dtlserrors.ErrVerifyDataMismatch
 	}
 
+	// The session becomes resumable only now that the client's Finished has been
+	// verified and, below, once the client met the authentication policy: a
+	// resumed handshake repeats neither check.
+	saveSession := func() (*alert.Alert, error) {
+		if len(state.SessionID) > 0 {
+			cfg.Log.Tracef("[handshake] save new session: %x", state.SessionID)
+			if err := cfg.SetSession(state.SessionID, state.SessionID, state.MasterSecret); err != nil {
+				return &alert.Alert{Level: alert.Fatal, Description: alert.InternalError}, err
+			}
+		}
+
+		return nil, nil
+	}
+
 	if state.CipherSuite.AuthenticationType() == ciphersuite.AuthenticationTypeAnonymous {
 		if cfg.VerifyConnection != nil {
 			if err := cfg.VerifyConnection(state); err != nil {
 				return 0, &alert.Alert{Level: alert.Fatal, Description: alert.BadCertificate}, err
 			}
+		}
+		if dtlsAlert, err := saveSession(); err != nil {
+			return 0, dtlsAlert, err
 		}
 
 		return Flight6, nil, nil
@@ -269,6 +279,9 @@ func flight4Parse(
 		if err := cfg.VerifyConnection(state); err != nil {
 			return 0, &alert.Alert{Level: alert.Fatal, Description: alert.BadCertificate}, err
 		}
+	}
+	if dtlsAlert, err := saveSession(); err != nil {
+		return 0, dtlsAlert, err
 	}
 
 	return Flight6, nil, nil
